@@ -39,6 +39,7 @@ def violations_of(rel):
 
 class C17(PropBase):
     pid = "C17"
+    translators = []
     coq_dirs = ["Base", "C17"]
     bins = ["c17"]
     rule = ("cases = (code_file, debug_file, debug id text, code id text); strings exhaustive over the alphabet "
